@@ -499,6 +499,20 @@ func (c *Ctx) guardsMissing(ex excEntry, f *ssa.Function, b *ssa.BasicBlock) str
 			}
 			return false
 		}
+		// the guard says "reject when W": the failing edge is the true edge of W, the false edge of !W. (When
+		// both edges fail, or the failure is returned further down a chain of blocks, the polarity is not judged.)
+		rightSide := func(fn *ssa.Function, bb *ssa.BasicBlock, cond ssa.Value) bool {
+			for _, a := range alts {
+				if ok, negd := condMatchesPol(cond, a); ok {
+					t, fl := rejectsOn(fn, bb, 0), rejectsOn(fn, bb, 1)
+					if t == fl {
+						return true
+					}
+					return (t && !negd) || (fl && negd)
+				}
+			}
+			return true
+		}
 		for _, bb := range gf.Blocks {
 			ifi := lastIf(bb)
 			if ifi == nil || !(anyAlt(ifi.Cond) || c.linGuardMatches(gf, bb, ifi.Cond, g.cond)) {
@@ -507,6 +521,9 @@ func (c *Ctx) guardsMissing(ex excEntry, f *ssa.Function, b *ssa.BasicBlock) str
 			// the guard must reject: one of its edges leads (directly) to a return of a non-nil error
 			if !noReject && !rejects(gf, bb) {
 				continue
+			}
+			if !noReject && !rightSide(gf, bb, ifi.Cond) {
+				continue // the test is there but it rejects the complement
 			}
 			if gf == f && b != nil {
 				// same function: the site must lie behind the guard
@@ -1221,7 +1238,15 @@ func (c *Ctx) forwardLinks(f *ssa.Function, env *e1env) int {
 // same test with its branches swapped (a < b) are one guard. Which edge rejects is established
 // separately (rejects / dominance), so the polarity of the spelling carries no information here.
 func condMatches(cond ssa.Value, want string) bool {
+	ok, _ := condMatchesPol(cond, want)
+	return ok
+}
+
+// condMatchesPol: as condMatches, and whether the match is with the NEGATION of the condition (the code tests
+// !(want)): a guard "reject when W" written as `if !W { go on } else { reject }` rejects on the false edge.
+func condMatchesPol(cond ssa.Value, want string) (bool, bool) {
 	forms := []string{shape(cond, 3)}
+	negated := []bool{false}
 	if bo, ok := cond.(*ssa.BinOp); ok {
 		flip := map[token.Token]token.Token{token.LSS: token.GTR, token.GTR: token.LSS, token.LEQ: token.GEQ, token.GEQ: token.LEQ, token.EQL: token.EQL, token.NEQ: token.NEQ}
 		neg := map[token.Token]token.Token{token.LSS: token.GEQ, token.GEQ: token.LSS, token.GTR: token.LEQ, token.LEQ: token.GTR, token.EQL: token.NEQ, token.NEQ: token.EQL}
@@ -1231,12 +1256,28 @@ func condMatches(cond ssa.Value, want string) bool {
 				"("+y+flip[bo.Op].String()+x+")",
 				"("+x+neg[bo.Op].String()+y+")",
 				"("+y+flip[neg[bo.Op]].String()+x+")")
+			negated = append(negated, false, true, true)
 		}
 	}
-	for _, f := range forms {
+	for i, f := range forms {
 		if f == want || eraseNames(f) == eraseNames(want) || eraseNamesAndPrivateFields(f) == eraseNamesAndPrivateFields(want) || eraseLoose(f) == eraseLoose(want) || wildMatch(eraseLoose(want), eraseLoose(f)) {
-			return true
+			return true, negated[i]
 		}
+	}
+	return false, false
+}
+
+// rejectsOn: successor i of the If block returns a definite failure.
+func rejectsOn(f *ssa.Function, b *ssa.BasicBlock, i int) bool {
+	if i >= len(b.Succs) {
+		return false
+	}
+	s := b.Succs[i]
+	if len(s.Instrs) == 0 {
+		return false
+	}
+	if r, ok := s.Instrs[len(s.Instrs)-1].(*ssa.Return); ok && len(r.Results) > 0 {
+		return isFailureValue(f, retVal(r, len(r.Results)-1), s)
 	}
 	return false
 }
@@ -1315,7 +1356,26 @@ func (c *Ctx) linGuardMatches(f *ssa.Function, b *ssa.BasicBlock, cond ssa.Value
 	fmt.Sscan(parts[1], &k)
 	p := c.newProver(f, b)
 	e := p.lin(bo.X).sub(p.lin(bo.Y))
-	for _, sign := range []int64{1, -1} {
+	signs := []int64{1, -1}
+	// The reference is "reject when form < 0" over integers. When exactly one edge of the test fails directly, the
+	// operator and the failing edge fix the form: X<Y is D<0, X<=Y is D-1<0, X>Y is -D<0, X>=Y is -D-1<0 (D = X-Y);
+	// failing on the false edge means "reject when not(E<0)", i.e. -E-1 < 0. `len <= limit` for `len < limit` is
+	// then a different guard (it also rejects the exact length), as is the same test with the branches swapped.
+	if t, fl := rejectsOn(f, b, 0), rejectsOn(f, b, 1); t != fl {
+		switch bo.Op {
+		case token.LEQ:
+			e = e.addConst(-1)
+		case token.GTR:
+			e = e.scale(-1)
+		case token.GEQ:
+			e = e.scale(-1).addConst(-1)
+		}
+		if fl {
+			e = e.scale(-1).addConst(-1)
+		}
+		signs = []int64{1}
+	}
+	for _, sign := range signs {
 		if e.k.Cmp(ratInt(sign*k)) != 0 || len(e.co) != len(coefs) {
 			continue
 		}
